@@ -196,17 +196,46 @@ class ArbitraryStream(object):
         return r
 
 
+class GhostBufferView(object):
+    """What BytesIO.getbuffer() returns: a live view that pins the buffer (no resizing write while it is exported)."""
+
+    def __init__(self, owner):
+        self.owner = owner
+        self.released = False
+
+    def release(self):
+        if not self.released:
+            self.released = True
+            self.owner.exports -= 1
+
+    def tobytes(self):
+        return self.owner.content
+
+
 class SymBytesIO(object):
     """Model of io.BytesIO restricted to the operations PacketBuffer uses:
-    write (append at the end while the cursor is at the end), read, seek(0), getvalue."""
+    write (append at the end while the cursor is at the end), read, seek(0), getvalue, tell, getbuffer."""
 
     def __init__(self, I, initial=b''):
         self.I = I
         self.content = SBytes.of(initial)
         self.reader = None           # None: cursor at end (append mode)
+        self.exports = 0
+
+    def tell(self):
+        n = self.content.length()
+        if self.reader is None:
+            return n
+        return n - self.reader.remaining().length()
+
+    def getbuffer(self):
+        self.exports += 1
+        return GhostBufferView(self)
 
     def write(self, value):
         value = SBytes.of(value)
+        if self.exports:
+            raise BufferError('Existing exports of data: object cannot be re-sized')
         if self.reader is not None:
             rem = self.reader.remaining()
             n = rem.length()
